@@ -78,6 +78,17 @@ type Interp struct {
 	// Unsupported is set when the program used a construct the reference does
 	// not model exactly; the comparison is then skipped (counted).
 	Unsupported string
+	// StderrOpaque is set when something was written to stderr whose text the
+	// reference cannot render (a closure): stderr is then not comparable.
+	StderrOpaque bool
+	// Used counts the calls of the extension builtins (ext.go) that passed their
+	// arity check: evidence that a construct was evaluated, not only generated.
+	Used map[string]int
+	// Fault injection, default off (fault.go): from the FaultAt-th evaluation
+	// entry on every entry fails with condition FaultCond; Entries counts them.
+	FaultAt   int
+	FaultCond string
+	Entries   int
 }
 
 const LangPkg = "lisp"
@@ -90,6 +101,7 @@ func New() *Interp {
 	in.Cur = lang
 	installSpecials(in, lang)
 	installBuiltins(in, lang)
+	installExt(in, lang) // user-defined types, defconst, trace, qualified-symbol (ext.go)
 	user := &Package{Name: UserPkg, Syms: map[string]*V{}}
 	in.Pkgs[UserPkg] = user
 	in.Cur = user
@@ -248,6 +260,9 @@ func (in *Interp) putGlobal(k *V, v *V) *Err {
 
 // Eval is the definitional evaluator.
 func (in *Interp) Eval(env *Env, v *V) (*V, *Err) {
+	if e := in.entry(); e != nil { // fault injection (fault.go); never fails by default
+		return nil, e
+	}
 	in.tick()
 	in.depth++
 	if in.depth > in.MaxDepth {
@@ -337,6 +352,9 @@ func (in *Interp) Apply(env *Env, fn *Fun, args []*V, callNode int) (*V, *Err) {
 	}
 	fenv, e := in.bind(fn, args)
 	if e != nil {
+		return nil, e
+	}
+	if e := in.entry(); e != nil { // function-body entry (fault.go)
 		return nil, e
 	}
 	return in.runBody(fn, fenv)
@@ -786,6 +804,9 @@ func installSpecials(in *Interp, p *Package) {
 		lenv := NewEnv(env)
 		n := int64(0)
 		for i := int64(0); i < cnt.I; i++ {
+			if e := in.entry(); e != nil { // a turn is an entry (fault.go)
+				return nil, e
+			}
 			in.tick()
 			n++
 			if e := in.putLocal(lenv, sym, Int(i)); e != nil {
@@ -802,6 +823,9 @@ func installSpecials(in *Interp, p *Package) {
 		}
 		if len(cs.C) == 3 {
 			return in.Eval(lenv, cs.C[2])
+		}
+		if e := in.entry(); e != nil { // the defaulted result form () is evaluated too (fault.go)
+			return nil, e
 		}
 		return Nil(), nil
 	}))
